@@ -748,6 +748,37 @@ theorem C01_stream_object_spelled_partial (b : Nat) (hb : 1 ≤ b) (o : ObjSpell
     ws eol0 d tail eol rest hc (StreamSeam.head_tokens o ho) (clean_tree o.body ho.2.2.2.2.2.2.2.2.1) hdict hlen hne hws
     heol0 htail heol
 
+open PdfVerif.Gen.Filters in
+/-- FULL for the spelled family (round 6d): no hypothesis on the scanner state is left.  For every well-formed
+    spelled head `objid gen obj <<dictionary>>` (`ObjSpelling.wf`: every separator / comment / minimal-delimiter /
+    `#xx` / nested-value freedom) whose dictionary has a direct `/Length = |d|`: head + white space + `stream` +
+    LF|CRLF + ANY payload `d` + marker-free tail + `endstream endobj` + EOL + anything is read by `getobj` as the
+    stream object with exactly that dictionary and exactly that payload, at every buffer size.
+    `Complete (modeAfter head)` is now PROVED (`StreamSeam.unit_complete`, the mode-tracking companion of
+    `LexUnit`: a scanner inside a string / hex string / comment would read ` 1 ` and ` 2 ` alike, the unit says
+    it does not). -/
+theorem C01_stream_object_spelled (b : Nat) (hb : 1 ≤ b) (o : ObjSpelling) (ho : o.wf)
+    (es : List (Bytes × SObj)) (ws eol0 d tail eol rest : Bytes)
+    (hdict : norm (valueOf o.body) = .dict es) (hlen : ObjParser.lookupLength es = some (.int d.length))
+    (hne : ws ≠ []) (hws : ∀ c ∈ ws, isSPC c = true) (heol0 : eol0 = [10] ∨ eol0 = [13, 10])
+    (htail : Filters.findSub ENDSTREAM_MARK (tail ++ ENDSTREAM_MARK) = some tail.length)
+    (heol : Filters.EolOk eol rest) :
+    ObjParser.getobjS b (intValue [] o.ds)
+      ((StreamSeam.headBytes o ++ ws) ++ kwStream ++ eol0 ++
+        (d ++ (tail ++ ENDSTREAM_MARK ++ ([32] ++ kwEndobj) ++ eol ++ rest)))
+      = .ok (.stream es d) :=
+  C01_stream_object_spelled_partial b hb o ho es ws eol0 d tail eol rest
+    (StreamSeam.unit_complete _ _ (StreamSeam.lex_head o ho)) hdict hlen hne hws heol0 htail heol
+
+/-- The scanner state after any spelled value that does not end in a regular run (containers, strings, or
+    anything followed by a separator) is a `Complete` one — the hypothesis of `C14_compositional` holds
+    for the whole family. -/
+theorem C01_tree_complete (pad : List SepItem) (hpad : sepOK pad) (t : STree) (hwf : wf t) (hreg : endsReg t = false) :
+    Complete (modeAfter (renderSep pad ++ bytesOf t)) = true := by
+  have hu := LexUnit.append_free (LexUnit.sep pad hpad) (lex_tree t hwf)
+  rw [hreg] at hu
+  exact StreamSeam.unit_complete _ _ hu
+
 /-- Non-vacuity of the spelled form: `12 0 obj<</Length 4>>` is a well-formed head whose scanner state is
     `Complete`, whose value is a dictionary with a direct `/Length 4`. -/
 example : ∃ o : ObjSpelling, o.wf ∧ Complete (modeAfter (StreamSeam.headBytes o)) = true ∧
